@@ -588,7 +588,7 @@ def rule_max_clique(F, R):
     if Ep:
         # every record of the input is an edge: one unconditional push of (record[0], record[1]) into the edge list, inside the loop over the records
         psites = push_sites(t, lambda e: callee_name(e) == 'std::vec::Vec::push' and P.place(e['args'][0]) == Ep[0])
-        okr = len(psites) >= 1 and all(_re.fullmatch(r'\((.+)\[0\],(.+)\[1\]\)', NV.norm(cl_['args'][1])) and not [c_ for (c_, pol_) in cnds_ if c_['k'] != 'Let'] for (cl_, cnds_) in psites)
+        okr = len(psites) >= 1 and all(_re.fullmatch(r'\((.+)\[0\],(.+)\[1\]\)', NV.norm(cl_['args'][1])) and not [c_ for (c_, pol_) in cnds_ if c_['k'] != 'Let' and not any(y_['k'] == 'Call' and (callee_name(y_) or '').startswith('csv::') for y_ in walk(c_))] for (cl_, cnds_) in psites)
         R.count('L:edge-list-pushes', len(psites)); R.obligation(okr, 'L edges from records')
         if not okr: R.violation('max_clique_gen::main / L / edge list', 'L', 'every record of the input must be added to the edge list as (record[0], record[1]), unconditionally (found %d insertion(s))' % len(psites), t['span']['loc'])
     if Ep and not cols:
@@ -1467,6 +1467,35 @@ def rule_graph_writers(F, R):
         R.obligation(ok, 'L head %s' % (ctx,))
         if not ok:
             R.violation('random_graph_gen::main / L / dot header %s' % ' '.join('%s=%s' % kv for kv in ctx), 'L', 'dot output in mode %s must be wrapped in `%s` ... `}`; found %s' % (dict(ctx), h, hs))
+
+THINNING = ('skip', 'take', 'step_by', 'skip_while', 'take_while', 'filter', 'filter_map', 'dedup', 'dedup_by', 'nth', 'last', 'unique', 'rev')
+
+def rule_complete_walks(F, R, crate_name, fns):
+    """the loops and listings of a generator walk their collections completely: no adaptor that drops or re-orders elements (`skip`, `take`,
+    `step_by`, `filter`, `rev` under an `enumerate` index, ..) sits between a collection and the `for` loop or the `join` that consumes it,
+    other than those of the pinned tree's own idiom (slices `get(i + 1 ..)` are judged by the rules of the pair loops)"""
+    c = F.crate(crate_name)
+    if c is None:
+        R.violation('%s / L / anchor' % crate_name, 'UNDECIDABLE', 'crate not found'); return
+    n = 0
+    for fn in fns:
+        bodies = [(g, t) for g, t in c.ithir.items() if g == fn or g.startswith(fn + '::{closure')]
+        for g, t in bodies:
+            heads = []
+            for (it, pat, body) in for_loops(t['body']): heads.append(it)
+            for x in walk(t['body']):
+                if x['k'] == 'Call' and (callee_name(x) or '').split('::')[-1] in ('join', 'collect') and x['args']: heads.append(x['args'][0])
+            for h in heads:
+                chain = []; y = strip(h)
+                while y['k'] == 'Call' and y['args']:
+                    chain.append((callee_name(y) or '').split('::')[-1]); y = strip(y['args'][0])
+                n += 1
+                bad = [c_ for c_ in chain if c_ in THINNING and not (c_ == 'rev' and 'enumerate' not in chain)]
+                # the whitespace filter of sudoku_gen and similar content filters are part of the pinned idiom: `filter` directly on `chars()`
+                bad = [c_ for c_ in bad if not (c_ == 'filter' and 'chars' in chain)]
+                R.obligation(not bad, 'L complete walk %s' % h.get('loc'))
+                if bad: R.violation('%s / L / complete walk' % g.split('::{closure')[0], 'L', 'a collection is walked through `%s`: elements are dropped or re-ordered before they are used' % '.'.join(reversed(chain)), h.get('loc'))
+    R.count('L:complete-walks', n)
 
 def rule_csv_records(F, R, crate_name):
     """every line of the input is an edge: the csv reader is built with `has_headers(false)` (the default treats the first line as a header
